@@ -36,6 +36,11 @@ pub struct SObj {
     pub space: &'static str,
 }
 
+pub fn watch_id() -> u64 {
+    static W: std::sync::OnceLock<u64> = std::sync::OnceLock::new();
+    *W.get_or_init(|| std::env::var("SIM_WATCH_ID").ok().and_then(|s| s.parse().ok()).unwrap_or(0))
+}
+
 impl SObj {
     pub fn pinned(&self) -> bool {
         self.pins_true > self.unpins_true
@@ -275,6 +280,9 @@ pub fn violation(native_property: &str, class: &str, message: String) -> ! {
             std::thread::park();
         }
     }
+    if std::env::var("SIM_BACKTRACE").is_ok() {
+        eprintln!("violation backtrace:\n{}", std::backtrace::Backtrace::force_capture());
+    }
     emit(
         Outcome {
             status: "violation".into(),
@@ -348,6 +356,9 @@ impl World {
         }
     }
     pub fn set_root(&mut self, mid: usize, r: RootRef, id: u64, raw: usize) {
+        if watch_id() != 0 && self.root_id(mid, r) == watch_id() {
+            eprintln!("WATCHID root {:?} of mutator {} overwritten -> {}", r, mid, id);
+        }
         if r.g {
             let i = r.i as usize % NGLOBAL;
             self.groots[i] = id;
@@ -455,7 +466,17 @@ fn tracing_allowed(w: &World) -> bool {
 }
 
 pub fn on_scan_object(object: ObjectReference, h: &Hdr) {
+    // The SATB barrier's slow path enumerates the fields of the object being written by calling
+    // scan_object on the mutator's own thread; that is not collector tracing.
+    let by_mutator_barrier = std::thread::current().name().map_or(false, |n| n.starts_with("mutator"));
     with_world(|w| {
+        if by_mutator_barrier && w.plan.barrier_satb {
+            w.count("barrier_scans_by_mutator");
+            if !w.satb_active {
+                w.count("barrier_scans_outside_marking");
+            }
+            return;
+        }
         if !tracing_allowed(w) {
             violation(
                 "C11",
